@@ -583,9 +583,9 @@ pub mod ss {
     }
 
     // --- potential function for termination of Work::run (C06)
-    pub open spec fn pot(st: Seq<BuildState>) -> int
+    pub open spec fn pot(st: Seq<BuildState>) -> nat
         decreases st.len()
-    { if st.len() == 0 { 0 } else { pot(st.drop_last()) + 5 - rank(st.last()) } }
+    { if st.len() == 0 { 0 } else { pot(st.drop_last()) + (5 - rank(st.last())) as nat } }
     pub proof fn lemma_pot_update(st: Seq<BuildState>, i: int, v: BuildState)
         requires 0 <= i < st.len()
         ensures pot(st.update(i, v)) == pot(st) + rank(st[i]) - rank(v), 0 <= pot(st) <= 5 * st.len()
@@ -732,6 +732,133 @@ pub mod ss {
             lemma_count_ext(st, counted(g0, state_of_idx(k)), counted(g1, state_of_idx(k)));
         }
         assert forall|b: int| 0 <= b < st.len() && (rank(#[trigger] st[b]) == 3 || rank(st[b]) == 4) implies !phony(gs::builds(g1)[b]) by { let _ = gs::builds(g1)[b]; }
+    }
+
+    // --- Work::run
+    pub open spec fn runner_inv(bs: BuildStates, r: crate::task::Runner) -> bool {
+        &&& crate::rs::live(r).finite()
+        &&& forall|b: BuildId| #[trigger] crate::rs::live(r).contains(b) <==> ix(b) < st_of(bs).len() && st_of(bs)[ix(b)] == BuildState::Running
+        &&& forall|b: BuildId| #[trigger] crate::rs::started(r).contains(b) ==> ix(b) < st_of(bs).len() && rank(st_of(bs)[ix(b)]) >= 4
+    }
+    pub open spec fn no_failed(st: Seq<BuildState>) -> bool { forall|b: int| 0 <= b < st.len() ==> #[trigger] st[b] != BuildState::Failed }
+    pub open spec fn budget_ok(o: Options) -> bool { match o.failures_left { Some(k) => k >= 1, None => true } }
+    pub open spec fn opts_same(a: Options, b: Options) -> bool { a.adopt == b.adopt && a.parallelism == b.parallelism && a.explain == b.explain }
+    /// every wanted step is Done (C05: the only state in which n2 may report success)
+    pub open spec fn all_settled(st: Seq<BuildState>) -> bool {
+        forall|b: int| 0 <= b < st.len() ==> #[trigger] st[b] == BuildState::Unknown || st[b] == BuildState::Done
+    }
+    pub proof fn lemma_count_zero_inv(st: Seq<BuildState>, p: spec_fn(int, BuildState) -> bool)
+        requires count(st, p) == 0
+        ensures forall|i: int| 0 <= i < st.len() ==> !p(i, #[trigger] st[i])
+        decreases st.len()
+    {
+        if st.len() > 0 {
+            lemma_count_zero_inv(st.drop_last(), p);
+            assert forall|i: int| 0 <= i < st.len() implies !p(i, #[trigger] st[i]) by {
+                if i < st.len() - 1 { assert(st.drop_last()[i] == st[i]); }
+            }
+        }
+    }
+    pub proof fn lemma_settled(g: Graph, bs: BuildStates)
+        requires bs_inv(g, bs), bs.total_pending == 0, no_failed(st_of(bs))
+        ensures all_settled(st_of(bs))
+    {
+        lemma_count_zero_inv(st_of(bs), is_pending());
+        assert forall|b: int| 0 <= b < st_of(bs).len() implies #[trigger] st_of(bs)[b] == BuildState::Unknown || st_of(bs)[b] == BuildState::Done by {
+            assert(!is_pending()(b, st_of(bs)[b]));
+        }
+    }
+    pub proof fn lemma_rd_no_failed(b0: BuildStates, b1: BuildStates, id: BuildId)
+        requires rd_effect(b0, b1, id), no_failed(st_of(b0))
+        ensures no_failed(st_of(b1))
+    {
+        assert forall|b: int| 0 <= b < st_of(b1).len() implies #[trigger] st_of(b1)[b] != BuildState::Failed by { let _ = st_of(b0)[b]; }
+    }
+    /// runner_inv survives ready_dependents when the finished id is no longer live
+    pub proof fn lemma_rd_runner(b0: BuildStates, b1: BuildStates, id: BuildId, r0: crate::task::Runner, r1: crate::task::Runner, was_running: bool)
+        requires rd_effect(b0, b1, id), ix(id) < st_of(b0).len(),
+            crate::rs::started(r1) == crate::rs::started(r0), crate::rs::live(r0).finite(),
+            was_running ==> runner_inv(b0, r0) && st_of(b0)[ix(id)] == BuildState::Running && crate::rs::live(r1) == crate::rs::live(r0).remove(id),
+            !was_running ==> runner_inv(b0, r0) && st_of(b0)[ix(id)] == BuildState::Ready && crate::rs::live(r1) == crate::rs::live(r0),
+        ensures runner_inv(b1, r1)
+    {
+        assert forall|b: BuildId| #[trigger] crate::rs::live(r1).contains(b) <==> ix(b) < st_of(b1).len() && st_of(b1)[ix(b)] == BuildState::Running by {
+            if b != id { assert(b.0 != id.0); assert(ix(b) != ix(id)); if ix(b) < st_of(b0).len() { let _ = st_of(b1)[ix(b)]; } }
+        }
+        assert forall|b: BuildId| #[trigger] crate::rs::started(r1).contains(b) implies ix(b) < st_of(b1).len() && rank(st_of(b1)[ix(b)]) >= 4 by {
+            if b != id { assert(b.0 != id.0); assert(ix(b) != ix(id)); let _ = st_of(b1)[ix(b)]; }
+        }
+    }
+    pub proof fn lemma_set_runner(b0: BuildStates, b1: BuildStates, id: BuildId, state: BuildState, r0: crate::task::Runner, r1: crate::task::Runner)
+        requires runner_inv(b0, r0), ix(id) < st_of(b0).len(), st_of(b1) == st_of(b0).update(ix(id), state),
+            crate::rs::started(r1) == crate::rs::started(r0), crate::rs::live(r1) == crate::rs::live(r0),
+            (st_of(b0)[ix(id)] == BuildState::Running) == (state == BuildState::Running),
+            rank(state) >= 4 || !crate::rs::started(r0).contains(id),
+        ensures runner_inv(b1, r1)
+    {
+        assert forall|b: BuildId| #[trigger] crate::rs::live(r1).contains(b) <==> ix(b) < st_of(b1).len() && st_of(b1)[ix(b)] == BuildState::Running by {
+            if b != id { assert(b.0 != id.0); assert(ix(b) != ix(id)); }
+        }
+        assert forall|b: BuildId| #[trigger] crate::rs::started(r1).contains(b) implies ix(b) < st_of(b1).len() && rank(st_of(b1)[ix(b)]) >= 4 by {
+            if b != id { assert(b.0 != id.0); assert(ix(b) != ix(id)); }
+        }
+    }
+
+    pub open spec fn pop_ready_rel(b0: BuildStates, b1: BuildStates, r: Option<BuildId>) -> bool {
+        &&& b1.states == b0.states && b1.counts == b0.counts && b1.total_pending == b0.total_pending && b1.pools == b0.pools
+        &&& match r {
+            Some(id) => b0.ready@.len() > 0 && id == b0.ready@[0] && b1.ready@ == b0.ready@.drop_first(),
+            None => b0.ready@.len() == 0 && b1.ready@ == b0.ready@,
+        }
+    }
+    pub open spec fn pop_ready_post(g: Graph, b1: BuildStates, r: Option<BuildId>) -> bool {
+        bs_inv(g, b1) && (r is Some ==> ix(r.unwrap()) < st_of(b1).len() && st_of(b1)[ix(r.unwrap())] == BuildState::Ready && !b1.ready@.contains(r.unwrap()))
+    }
+    pub proof fn lemma_pop_ready_any(g: Graph, b0: BuildStates, b1: BuildStates, r: Option<BuildId>)
+        requires bs_inv(g, b0), pop_ready_rel(b0, b1, r)
+        ensures pop_ready_post(g, b1, r)
+    {
+        match r {
+            Some(id) => { lemma_pop_ready(g, b0, b1, id); }
+            None => { lemma_bs_inv_views(g, b0, b1); }
+        }
+    }
+
+    pub proof fn lemma_graph_ext_trans(a: Graph, b: Graph, c: Graph)
+        requires graph_ext(a, b), graph_ext(b, c)
+        ensures graph_ext(a, c)
+    {
+        assert forall|i: int| 0 <= i < gs::builds(a).len() implies (#[trigger] gs::builds(c)[i]).ins == gs::builds(a)[i].ins
+                && gs::builds(c)[i].outs == gs::builds(a)[i].outs && gs::builds(c)[i].pool == gs::builds(a)[i].pool
+                && (gs::builds(c)[i].cmdline is None) == (gs::builds(a)[i].cmdline is None) by { let _ = gs::builds(b)[i]; }
+        assert forall|f: int| 0 <= f < gs::files(a).len() implies (#[trigger] gs::files(c)[f]).input == gs::files(a)[f].input by { let _ = gs::files(b)[f]; }
+    }
+    pub proof fn lemma_graph_ext_refl(a: Graph)
+        ensures graph_ext(a, a)
+    {}
+    /// after wait() returned build id as failed: it leaves the live set and becomes Failed
+    pub proof fn lemma_fail_runner(b0: BuildStates, b1: BuildStates, id: BuildId, r0: crate::task::Runner, r1: crate::task::Runner)
+        requires runner_inv(b0, r0), ix(id) < st_of(b0).len(), st_of(b0)[ix(id)] == BuildState::Running,
+            st_of(b1) == st_of(b0).update(ix(id), BuildState::Failed),
+            crate::rs::started(r1) == crate::rs::started(r0), crate::rs::live(r1) == crate::rs::live(r0).remove(id),
+        ensures runner_inv(b1, r1)
+    {
+        assert forall|b: BuildId| #[trigger] crate::rs::live(r1).contains(b) <==> ix(b) < st_of(b1).len() && st_of(b1)[ix(b)] == BuildState::Running by {
+            if b != id { assert(b.0 != id.0); assert(ix(b) != ix(id)); }
+        }
+        assert forall|b: BuildId| #[trigger] crate::rs::started(r1).contains(b) implies ix(b) < st_of(b1).len() && rank(st_of(b1)[ix(b)]) >= 4 by {
+            if b != id { assert(b.0 != id.0); assert(ix(b) != ix(id)); }
+        }
+    }
+    pub proof fn lemma_update_no_failed(s0: Seq<BuildState>, i: int, v: BuildState)
+        requires no_failed(s0), 0 <= i < s0.len(), v != BuildState::Failed
+        ensures no_failed(s0.update(i, v))
+    {
+        assert forall|b: int| 0 <= b < s0.len() implies #[trigger] s0.update(i, v)[b] != BuildState::Failed by { if b != i { assert(s0[b] != BuildState::Failed); } }
+    }
+
+    pub open spec fn pop_queued_post(g: Graph, b1: BuildStates, r: Option<BuildId>) -> bool {
+        bs_inv(g, b1) && (r is Some ==> set_ok(g, b1, r.unwrap(), BuildState::Running) && st_of(b1)[ix(r.unwrap())] == BuildState::Queued)
     }
     }
 }
